@@ -353,6 +353,11 @@ func pdfRepresentable(data []byte, level int) tri {
 	if upper && n > 0 && (n+1)/2+ecc+1 <= 860 {
 		return mustAccept
 	}
+	// any byte string is expressible: in the worst case every byte costs a shift and a byte
+	// codeword; well inside the capacity that must be accepted whatever the bytes are
+	if n > 0 && 2*n+4+ecc <= 860 {
+		return mustAccept
+	}
 	return unspecified
 }
 
